@@ -1589,6 +1589,13 @@ func (dsc *dataStoreCommand) lmove(srcKeyName, destKeyName string, srcLeft, dest
 		return
 	}
 
+	if srcKeyName == destKeyName && srcList.count == 1 {
+		// rotating a one-element list leaves it as it is; popping the element
+		// would delete the key and the push would go to the detached list
+		output.data = respBulkString(srcList.head.element)
+		return
+	}
+
 	// remove the item from the source list
 	var item *listItem
 	if srcLeft {
